@@ -363,6 +363,11 @@ func (procHarness) Gen(seed uint64, prop, tier string) *simkit.Program {
 	g.own = r.Intn(nKeys)
 	p.Cfg["own"] = int64(g.own)
 	p.Cfg["reqcap"] = int64([]int{50, 50, 50, 1, 2, 0}[r.Intn(6)])
+	if (prop == "C01" || prop == "C02") && r.P(0.12) {
+		p.Cfg = map[string]int64{}
+		genMesh(g)
+		return p
+	}
 	if r.P(0.25) {
 		p.Cfg["loop"] = 1
 	}
